@@ -19,6 +19,7 @@ import (
 	"strings"
 	"sync"
 	"sync/atomic"
+	"time"
 
 	"github.com/XiaoMi/Gaea/parser"
 	_ "github.com/XiaoMi/Gaea/parser/tidb-types/parser_driver"
@@ -47,6 +48,33 @@ var pieces = []string{
 	"select 1 /* ' */",        // 13 quote character inside a comment
 	"/* ; */",                 // 14 comment-only statement
 	"select 2 from t where a", // 15 a second plain statement (distinguishable from 0)
+	// control bytes inside a string / comment / quoted identifier: harmless, part of the token
+	"select '\x00\x01'",        // 16
+	"select 1 /* \x1f\x7f */", // 17
+	"select `a\x01` from t",    // 18
+	// stand-alone control bytes: bytes no token starts with. No grammar accepts them, but the
+	// proxy still has to answer (pieces or an error), i.e. the split has to RETURN.
+	"\x00", // 19
+	"\x01", // 20
+	"\x1f", // 21
+	"\x7f", // 22
+}
+
+const (
+	firstStandalone = 19 // pieces[firstStandalone:] are the stand-alone control bytes
+)
+
+// controlFamily is the sub-alphabet of the second family: every sequence over it that
+// contains at least one stand-alone control byte.
+var controlFamily = []int{0, 1, 2, 4, 16, 17, 18, 19, 20, 21, 22}
+
+func hasStandalone(seq []int) bool {
+	for _, x := range seq {
+		if x >= firstStandalone {
+			return true
+		}
+	}
+	return false
 }
 
 var seps = []string{";", " ; ", ";\n"}
@@ -143,10 +171,14 @@ func classify(c tcase) map[string]string {
 	f["empty_pieces"] = fmt.Sprint(has(1) || has(2) || has(14))
 	f["trailer"] = fmt.Sprintf("%q", trails[c.Trail])
 	f["sep"] = fmt.Sprintf("%q", seps[c.Sep])
+	f["control"] = "none"
+	if hasStandalone(c.Seq) {
+		f["control"] = "standalone_control_byte"
+	}
 	return f
 }
 
-var nEval, nAccepted, nRejected, nSessions, nSessionCases int64
+var nEval, nAccepted, nRejected, nRejectedReturned, nSessions, nSessionCases int64
 
 // reference returns the grammar's statements of text (trimmed), or ok=false if Gaea's
 // parser rejects the text.
@@ -336,23 +368,130 @@ func partB(r *ev.Run, c tcase, text string, want []string) {
 
 func server_var(s *sessrig.Session) bool { return s.UserVarSet("@a") }
 
-func runCase(r *ev.Run, c tcase, session bool) {
+// runCase evaluates one case. ph (may be nil) is told which part is running, so that the
+// watchdog can say where a case that never returns is stuck.
+func runCase(r *ev.Run, c tcase, session bool, ph *string) {
+	phase := func(p string) {
+		if ph != nil {
+			*ph = p
+		}
+	}
 	text := c.build()
 	c.Text = text
 	atomic.AddInt64(&nEval, 1)
+	phase("reference")
 	want, ok := reference(text)
 	if !ok {
+		// outside the grammar: nothing is required of the RESULT, but the proxy has to come
+		// back with pieces or an error (a call that never returns is neither)
 		atomic.AddInt64(&nRejected, 1)
+		if c.Fail == -2 || !session {
+			phase("split")
+			ev.Catch(func() { parser.SplitStatementToPieces(text) })
+		}
+		if session {
+			phase("session")
+			rig := sessrig.Acquire()
+			s := rig.NewSession(true)
+			ev.Catch(func() { s.Query(text) })
+			sessrig.Release(rig)
+			atomic.AddInt64(&nSessions, 1)
+		}
+		atomic.AddInt64(&nRejectedReturned, 1)
 		return
 	}
 	atomic.AddInt64(&nAccepted, 1)
 	if c.Fail == -2 || !session {
+		phase("split")
 		partA(r, c, text, want)
 	}
 	if session {
+		phase("session")
 		atomic.AddInt64(&nSessionCases, 1)
 		partB(r, c, text, want)
 	}
+}
+
+// ---------- worker pool with a hang watchdog ----------
+//
+// A case is a microsecond call. A case that has not returned after the horizon is reported as
+// a "hang" violation; its goroutine cannot be stopped, so that worker is abandoned (it keeps
+// its session rig) and the others go on. When every worker is lost the run ends (capped).
+
+type slot struct {
+	mu      sync.Mutex
+	busy    bool
+	dead    bool
+	start   time.Time
+	c       tcase
+	session bool
+	phase   string
+}
+
+func runPool(r *ev.Run, n int, horizon time.Duration, decode func(i int) (tcase, bool), onDone func(i int, c tcase)) (done int64, lost int) {
+	const workers = 16
+	slots := make([]*slot, workers)
+	var next int64
+	finished := make(chan int, workers)
+	for w := 0; w < workers; w++ {
+		sl := &slot{}
+		slots[w] = sl
+		go func(w int) {
+			for {
+				i := int(atomic.AddInt64(&next, 1) - 1)
+				if i >= n || r.TimeUp() {
+					finished <- w
+					return
+				}
+				c, session := decode(i)
+				sl.mu.Lock()
+				sl.busy, sl.start, sl.c, sl.session, sl.phase = true, time.Now(), c, session, "start"
+				sl.mu.Unlock()
+				runCase(r, c, session, &sl.phase)
+				sl.mu.Lock()
+				dead := sl.dead
+				sl.busy = false
+				sl.mu.Unlock()
+				if dead {
+					return // declared hung while it was (very) slow: already accounted for
+				}
+				atomic.AddInt64(&done, 1)
+				if onDone != nil {
+					onDone(i, c)
+				}
+			}
+		}(w)
+	}
+	live := workers
+	tick := time.NewTicker(200 * time.Millisecond)
+	defer tick.Stop()
+	for live > 0 {
+		select {
+		case <-finished:
+			live--
+		case <-tick.C:
+			for _, sl := range slots {
+				sl.mu.Lock()
+				if sl.busy && !sl.dead && time.Since(sl.start) > horizon {
+					sl.dead = true
+					live--
+					lost++
+					c := sl.c
+					c.Text = c.build()
+					feat := classify(c)
+					feat["kind"] = "hang"
+					feat["part"] = sl.phase
+					what := "parser.SplitStatementToPieces"
+					if sl.phase == "session" {
+						what = "COM_QUERY on a multi-statement session (doMultiStmts)"
+					}
+					r.Violation(ev.Witness{Summary: fmt.Sprintf("%s never returns for %q (no answer after %v; the call normally takes microseconds)", what, c.Text, horizon), Features: feat, Case: c})
+				}
+				sl.mu.Unlock()
+			}
+		}
+	}
+	return done, lost
 }
 
 func main() {
@@ -362,26 +501,30 @@ func main() {
 		ev.Fatalf("sessrig: %v", err)
 	}
 	var rc tcase
+	horizon := 20 * time.Second
+	if r.Thorough() {
+		horizon = 30 * time.Second
+	}
 	if r.ReplayCase(&rc) {
-		if rc.Fail == -2 {
-			runCase(r, rc, false)
-		} else {
-			runCase(r, rc, true)
-		}
+		runPool(r, 1, horizon, func(int) (tcase, bool) { return rc, rc.Fail != -2 }, nil)
 		r.Finish()
 	}
 
-	a := len(pieces)
+	// Family 1: the pieces without the stand-alone control bytes. (a): every sequence up to
+	// fullLen in every sep x trailer combination, and up to extraLen in the first; (b): every
+	// sequence up to sessLen in every combination.
+	// Family 2 (runs last): every sequence over the control sub-alphabet that contains at
+	// least one stand-alone control byte, up to ctlLen (a) / ctlSessLen (b), every combination.
+	a := firstStandalone
 	combos := len(seps) * len(trails)
-	// (a): every sequence up to fullLen in every sep x trailer combination, and up to
-	// extraLen in the first; (b): every sequence up to sessLen in every combination.
-	fullLen, extraLen, sessLen := 3, 4, 2
+	fullLen, extraLen, sessLen, ctlLen, ctlSessLen := 3, 4, 2, 3, 2
 	if r.Thorough() {
-		fullLen, extraLen, sessLen = 4, 5, 3
+		fullLen, extraLen, sessLen, ctlLen, ctlSessLen = 4, 5, 3, 4, 3
 	}
 	type block struct {
 		l, combo, size int
 		session        bool
+		seqs           [][]int // family 2: explicit list
 	}
 	var blocks []block
 	universe := 0
@@ -390,17 +533,43 @@ func main() {
 			if l > fullLen && cb > 0 {
 				continue
 			}
-			blocks = append(blocks, block{l, cb, n, false})
+			blocks = append(blocks, block{l: l, combo: cb, size: n})
 			universe += n
 			if l <= sessLen {
-				blocks = append(blocks, block{l, cb, n, true})
+				blocks = append(blocks, block{l: l, combo: cb, size: n, session: true})
 				universe += n
 			}
 		}
 	}
+	family1 := universe
+	for l := 1; l <= ctlLen; l++ {
+		var seqs [][]int
+		dims := make([]int, l)
+		for i := range dims {
+			dims[i] = len(controlFamily)
+		}
+		enum.Product(dims, func(idx []int) {
+			seq := make([]int, l)
+			for i, x := range idx {
+				seq[i] = controlFamily[x]
+			}
+			if hasStandalone(seq) {
+				seqs = append(seqs, seq)
+			}
+		})
+		for cb := 0; cb < combos; cb++ {
+			blocks = append(blocks, block{l: l, combo: cb, size: len(seqs), seqs: seqs})
+			universe += len(seqs)
+			if l <= ctlSessLen {
+				blocks = append(blocks, block{l: l, combo: cb, size: len(seqs), seqs: seqs, session: true})
+				universe += len(seqs)
+			}
+		}
+	}
 	r.Set("universe", universe)
-	r.Set("bound", fmt.Sprintf("alphabet of %d pieces x %d separators x %d trailers; split-vs-grammar on every sequence of 1..%d pieces (1..%d with the first separator/trailer); through a session, with every failing position, on every sequence of 1..%d pieces",
-		a, len(seps), len(trails), fullLen, extraLen, sessLen))
+	r.Set("control_family_cases", universe-family1)
+	r.Set("bound", fmt.Sprintf("family 1: alphabet of %d pieces x %d separators x %d trailers; split-vs-grammar on every sequence of 1..%d pieces (1..%d with the first separator/trailer); through a session, with every failing position, on every sequence of 1..%d pieces. Family 2 (control bytes): every sequence of 1..%d pieces over a sub-alphabet of %d (incl. the stand-alone bytes 0x00 0x01 0x1f 0x7f) that contains a stand-alone control byte, all combinations; through a session up to length %d. Hang horizon %v",
+		a, len(seps), len(trails), fullLen, extraLen, sessLen, ctlLen, len(controlFamily), ctlSessLen, horizon))
 
 	decode := func(i int) (tcase, bool) {
 		for _, bl := range blocks {
@@ -408,10 +577,15 @@ func main() {
 				i -= bl.size
 				continue
 			}
-			seq := make([]int, bl.l)
-			for k := bl.l - 1; k >= 0; k-- {
-				seq[k] = i % a
-				i /= a
+			var seq []int
+			if bl.seqs != nil {
+				seq = bl.seqs[i]
+			} else {
+				seq = make([]int, bl.l)
+				for k := bl.l - 1; k >= 0; k-- {
+					seq[k] = i % a
+					i /= a
+				}
 			}
 			c := tcase{Seq: seq, Sep: bl.combo / len(trails), Trail: bl.combo % len(trails), Fail: -2}
 			if bl.session {
@@ -421,28 +595,29 @@ func main() {
 		}
 		panic("index out of universe")
 	}
-	done := enum.Parallel(universe, r.TimeUp, func(i int) {
-		c, session := decode(i)
-		runCase(r, c, session)
+	done, lost := runPool(r, universe, horizon, decode, func(i int, c tcase) {
 		if i%(universe/7+1) == 3 {
 			c.Text = c.build()
 			r.Sample(c)
 		}
 	})
-	if done < universe {
-		r.Capped(fmt.Sprintf("%d of %d cases in index order (shortest first)", done, universe))
+	r.Set("workers_lost_to_hangs", lost)
+	if int(done)+lost < universe {
+		r.Capped(fmt.Sprintf("%d of %d cases completed in index order (family 1 first, shortest first); %d worker(s) lost to cases that never return", done, universe, lost))
 	}
 	r.Set("evaluations", nEval)
 	r.Set("parser_accepted", nAccepted)
 	r.Set("parser_rejected", nRejected)
+	r.Set("rejected_texts_answered", nRejectedReturned)
 	r.Set("session_texts", nSessionCases)
 	r.Set("session_runs", nSessions)
 	if nAccepted == 0 || r.DistinctN("nontrivial") < 2 || r.DistinctN("session_outcomes") < 2 {
 		ev.Fatalf("vacuous run: accepted=%d nontrivial=%d session outcomes=%d", nAccepted, r.DistinctN("nontrivial"), r.DistinctN("session_outcomes"))
 	}
-	r.Set("rule", "texts = sequences of pieces (plain statements, a SET, empty/blank/comment-only pieces, statements with ';' inside '…', \"…\", `…`, /* */, -- and # comments, after escaped and doubled quotes) joined by ';' variants plus a trailer. distinct_nontrivial = distinct accepted texts with ≥2 grammar statements and ≥1 ';' that is not a separator. session_outcomes = distinct (backend statements executed / grammar statements / error) triples")
+	r.Set("rule", "texts = sequences of pieces (plain statements, a SET, empty/blank/comment-only pieces, statements with ';' inside '…', \"…\", `…`, /* */, -- and # comments, after escaped and doubled quotes) joined by ';' variants plus a trailer; control bytes 0x00/0x01/0x1f/0x7f inside strings, comments and quoted identifiers and as stand-alone pieces before/between/after ';' (texts no grammar accepts: only an answer — pieces or an error — is demanded). distinct_nontrivial = distinct accepted texts with ≥2 grammar statements and ≥1 ';' that is not a separator. session_outcomes = distinct (backend statements executed / grammar statements / error) triples")
 	r.Assume("Gaea's multi-statement parser.Parse defines the grammar's statements; cross-checked on every accepted text against the independent splitter ref/mylex (disagreement = exit 2)")
 	r.Assume("unsharded namespace: the statement text is forwarded to the backend as it was cut; SET is executed inside the proxy and observed through the session's variables")
+	r.Assume("a case (a microsecond call) that has not returned after the hang horizon is reported as a hang; its worker is abandoned")
 	r.Assume("statement comparison is on trimmed text; differences that are only separators or comments are reported with their own kind")
 	r.Finish()
 }
